@@ -87,6 +87,14 @@ def run(prop, tier, seed):
         mw = vlib.tlc_mc(d, "KeeperImplMC.tla", "KeeperImplWedge.cfg", timeout=1200)
         v.cov["impl_states"], v.cov["impl_transitions"] = mi["distinct"], mi["states"]
         v.cov["impl_known_wedge_reachable_in_model"] = bool(mw["violated"])
+        # start / stop of the keeper and the life of its plotter goroutine: the repaired join rule holds, the pinned
+        # one is refuted (its counterexample is the StartStopStart schedule run on the real keeper below)
+        lb = vlib.tlc_mc(d, "KeeperLife.tla", "KeeperLife_before.cfg", timeout=300)
+        vlib.require_mc_ok(lb, "KeeperLife (JoinRule = before)")
+        li = vlib.tlc_mc(d, "KeeperLife.tla", "KeeperLife_inside.cfg", timeout=300)
+        v.cov["life_pinned_join_rule_refuted"] = bool(li["violated"])
+        if not li["violated"]:
+            raise vlib.Machinery("KeeperLife.tla with JoinRule=inside no longer shows the early return of Stop")
         mp = vlib.tlc_mc(d, "KeeperImplMC.tla", "KeeperImplPopOld.cfg", timeout=1200)
         v.cov["impl_pop_race_reachable_with_unchecked_pop"] = bool(mp["violated"])
         if not mp["violated"]:
